@@ -56,15 +56,15 @@ Print Assumptions C08_os_entropy_refuted.
 (** The table is well formed and every hand-written name (root causes, anchored components) exists in the source. *)
 Theorem C08_table_names_resolve :
   PositiveMap.cardinal FP.tbl = length nodes /\ N.of_nat (length nodes) = node_count /\
-  FP.ids_of FP.root_names = Some FP.root_ids /\ FP.ids_of FP.roots_os = Some FP.os_root_ids /\
+  FP.ids_of FP.root_names = Some FP.root_ids /\ True /\
   FP.ids_of FP.must_be_explicit = Some FP.must_ids /\ FP.ids_of FP.global_by_design = Some FP.global_ids.
 Proof. split; [exact (proj1 FPP.table_wellformed)|]. split; [exact (proj2 FPP.table_wellformed)|]. exact FPP.roots_resolved. Qed.
 Print Assumptions C08_table_names_resolve.
 
 (** Every anchored stochastic component (7 mating protocols and the meiosis helpers, G_E_Phenotyping, the sampling
-    functions, the 8 selection-configuration classes, the hill climbers) does use a generator, and every function it
+    functions, the 8 selection-configuration classes, the hill climbers, the pymoo optimisers that use pymoo's own operators) does use a generator, and every function it
     can reach references only: its rng parameter, an owned generator, or global_prng as the default for a missing one.
-    (For the hill climber, which calls back into arbitrary problem objects, the named root causes are excepted.) *)
+    (For the optimisers, which call back into arbitrary problem objects, the named root causes are excepted.) *)
 Theorem C08_anchored_components_explicit : forall nm p, In nm FP.must_be_explicit -> FP.id_of nm = Some p ->
   FP.fget FP.fp_excl p <> 0%N /\
   forall k, FP.reach FP.tbl p k -> (In nm FPP.via_callback /\ In k FP.root_ids) \/ FP.sub (FP.direct FP.tbl k) FP.EXPLICIT_OK = true.
@@ -80,10 +80,11 @@ Theorem C08_anchored_components_isolated : forall nm p, In nm FP.must_be_explici
 Proof. exact WP.anchored_isolated. Qed.
 Print Assumptions C08_anchored_components_isolated.
 
-(** OS entropy can enter a computation of the package only at the named entry points (pymoo minimize() without seed). *)
-Theorem C08_os_entropy_only_at_named_roots : forall n k, FP.reach FP.tbl n k -> FP.has FP.OS (FP.direct FP.tbl k) = true -> In k FP.os_root_ids.
-Proof. exact FPP.os_only_at_roots. Qed.
-Print Assumptions C08_os_entropy_only_at_named_roots.
+(** No function of the package reaches OS entropy — full strength, no exception (every pymoo minimize() call site passes a
+    seed derived from the optimiser's generator; the translator reports OS at any call site that does not). *)
+Theorem C08_no_component_reaches_os_entropy : forall n k, FP.reach FP.tbl n k -> FP.has FP.OS (FP.direct FP.tbl k) = false.
+Proof. exact FPP.no_os_entropy. Qed.
+Print Assumptions C08_no_component_reaches_os_entropy.
 
 (** Every function that accepts rng, and every member of a class that owns a generator, reaches only explicit sources —
     except through the named root causes (the known findings). A new hidden source anywhere else breaks this theorem. *)
@@ -105,15 +106,15 @@ Proof. exact FPP.global_by_design_os_free. Qed.
 Print Assumptions C08_global_components_os_free.
 
 (** The exceptions are real (no stale entry): each named root cause carries a forbidden source in its own body;
-    in particular a function that accepts rng reaches OS entropy directly (C08-ga-os-entropy). *)
+    *)
 Theorem C08_root_causes_real : forall k, In k FP.root_ids -> FP.sub (FP.direct FP.tbl k) FP.EXPLICIT_OK = false.
 Proof. exact FPP.roots_carry_forbidden_source. Qed.
 Print Assumptions C08_root_causes_real.
 
-Theorem C08_rng_component_reaches_os_refuted : exists nm p, In nm FP.roots_os /\ FP.id_of nm = Some p /\ In p rng_components /\
-  FP.has FP.OS (FP.direct FP.tbl p) = true.
-Proof. exact FPP.ga_os_entropy_refuted. Qed.
-Print Assumptions C08_rng_component_reaches_os_refuted.
+(** documentation of the repaired finding C08-ga-os-entropy: the mask an unseeded minimize() method had (SELF + OS) *)
+Theorem C08_unseeded_minimize_refuted : exists m, FP.has FP.OS m = true /\ FP.sub m FP.EXPLICIT_OK = false /\ m = N.lor FP.SELF FP.OS.
+Proof. exact FPP.unseeded_minimize_mask_refuted. Qed.
+Print Assumptions C08_unseeded_minimize_refuted.
 
 (** Programs made of anchored / global-by-design components run with rng = None — any semantics that stays inside the
     footprints computed from the source — are reproducible after seeding (table obligation + world theorem combined). *)
